@@ -258,6 +258,9 @@ def _choice(stream, a, size, replace, p, op='choice'):
         return out[0]
     if out and isinstance(out[0], np.ndarray):
         return np.array(out)
+    if not out and isinstance(a, np.ndarray) and a.ndim > 1:
+        # an empty selection of rows keeps the row shape
+        return np.ndarray._new([], (shape or (0,)) + a.shape[1:], a.dt)
     if not out:
         first = items[0] if items else 0
         if isinstance(first, np.ndarray):
